@@ -47,11 +47,12 @@ def gen_message(rng, kind):
     return msg[:900]
 
 
-def gen_histories(ck, n, nmsg):
+def gen_histories(ck, n, nmsg, io=False):
+    """io=True: schedules for the mptio variant (shipped codecs only, a flush moves everything finished)."""
     rng = ck.rng
     behs = []
     for h in range(n):
-        kind = KINDS[h % len(KINDS)]
+        kind = KINDS[h % (4 if io else len(KINDS))]
         small = kind.startswith("s5")
         caps = [0, 8, 16, 24] if small else [0, 8, 16, 64, 256, 300, 512]
         wcap, rcap = rng.choice(caps), rng.choice(caps)
@@ -70,7 +71,7 @@ def gen_histories(ck, n, nmsg):
                 beh.append({"a": "push", "arg": {"n": k}})
                 left -= k
                 if rng.random() < 0.2:
-                    beh.append({"a": "flush", "arg": {"n": rng.choice(sizes)}})
+                    beh.append({"a": "flush", "arg": {"n": ALL if io else rng.choice(sizes)}})
             beh.append({"a": "end", "arg": {"x": 0}})
             pend += 1
             for _ in range(rng.randrange(0, 6)):
@@ -79,7 +80,7 @@ def gen_histories(ck, n, nmsg):
                     beh.append({"a": "recv", "arg": {"x": 0}})
                 else:
                     k = 1 if style == "bytewise" else (ALL if style == "bulk" else rng.choice(sizes))
-                    beh.append({"a": op, "arg": {"n": k}})
+                    beh.append({"a": op, "arg": {"n": ALL if (io and op == "flush") else k}})
         # drain: everything flushed, delivered (bytewise or not) and received
         beh.append({"a": "flush", "arg": {"n": ALL}})
         if style == "bytewise":
@@ -160,11 +161,37 @@ def run(tier):
                          {"binding": "B(trace validation)", "matched_prefix": matched, "rejected_event": ev,
                           "previous_event": events[matched - 1] if matched else None,
                           "behaviour": beh[: (ev["i"] + 1)] if ev else None, "tlc_tail": tres.out[-1500:]})
+    # B2: the same through mptio: struct stream on socket pairs (push/flush/poll/dispatch)
+    exe_io = vlib.build_driver("stream_io", ["stream_io.c"], libs=("mptcore", "mptio"))
+    hist_io = gen_histories(ck, cfg["nhist"] // 2, cfg["nmsg"], io=True)
+    recs3, _ = vlib.run_driver(exe_io, vlib.to_script(hist_io), timeout=1200)
+    events3 = vlib.merge_trace(hist_io, recs3)
+    for e in events3:
+        e.pop("dbg", None)
+    ok3, matched3, tres3 = vlib.validate_trace("Trace_Stream", events3, tag="Trace_Stream_io", xss="1g")
+    ck.cov["transitions"] += tres3.generated
+    if not ok3:
+        ok4, matched4, _ = vlib.validate_trace("Trace_Stream", events3, tag="Trace_Stream_io", xss="1g")
+        if not ok4 and matched4 == matched3:
+            ev = events3[matched3] if matched3 < len(events3) else None
+            beh = hist_io[ev["b"]] if ev else None
+            why = ev["a"] if ev and ev["a"] in ("Crash", "Hang", "Missing") else "rejected:" + str((ev or {}).get("obs", {}).get("ret"))
+            ck.violation("trace-io:%s:%s:%s" % (beh[0]["arg"]["kind"] if beh else "-", ev["a"] if ev else "short", why),
+                         {"binding": "B(trace validation, mptio)", "io": True, "matched_prefix": matched3, "rejected_event": ev,
+                          "previous_event": events3[matched3 - 1] if matched3 else None,
+                          "behaviour": beh[: (ev["i"] + 1)] if ev else None})
+    ck.cov["evaluations"] += len(hist_io)
+    ck.notes["io_trace_events"] = len(events3)
+    ck.notes["io_trace_events_matched"] = matched3
+    by3 = vlib.group_records(recs3)
+    for b, beh in enumerate(hist_io):
+        if nontrivial(by3.get(b, [])):
+            nt.add("IO%d" % b + json.dumps(beh[0]["arg"], sort_keys=True))
     by2 = vlib.group_records(recs2)
     for b, beh in enumerate(hist):
         if nontrivial(by2.get(b, [])):
             nt.add("B%d" % b + json.dumps(beh[0]["arg"], sort_keys=True))
-    ck.cov["traces_validated_against_impl"] = len(hist) if ok else 0
+    ck.cov["traces_validated_against_impl"] = (len(hist) if ok else 0) + (len(hist_io) if ok3 else 0)
     ck.cov["evaluations"] += len(hist)
     ck.notes["trace_events"] = len(events)
     ck.notes["trace_events_matched"] = matched
@@ -188,7 +215,8 @@ def replay(path):
     if not beh:
         print(json.dumps(d["detail"], indent=1)[:4000])
         return 2
-    exe = build()
+    io = bool(d["detail"].get("io"))
+    exe = vlib.build_driver("stream_io", ["stream_io.c"], libs=("mptcore", "mptio")) if io else build()
     recs, _ = vlib.run_driver(exe, vlib.to_script([beh]))
     if all("exp" in s for s in beh):
         mms = vlib.compare([beh], recs)
